@@ -6,7 +6,8 @@
    The theorems quantify over ALL input statistics that are numbers - finite of any sign and size (so every rounding
    error, e.g. a variance of -1e-17, is covered), +-inf and NaN - every configuration, and every distribution family
    whose methods return plain floats without raising (scipy.stats frozen distributions; trusted, observed by the oracle).
-   Not modelled: float overflow in x**2 (excluded by the property's magnitude bound), the data backends (C01 / C02). *)
+   Not modelled: rounding and overflow inside a computation (the finite arithmetic is exact; the proof is a kind derivation
+   valid for every operand value), the data backends (C01 / C02). *)
 From Coq Require Import QArith String List Bool.
 From TT Require Import lib.PreludeX genX.Aggr genX.Mean proofs.C18_noraise.
 Local Open Scope num_scope.
